@@ -55,7 +55,7 @@ def clean_inputs(ir, rng, n, tries=None, size_cap=6, data_mode=None, par=False):
     return out
 
 
-def check_c(proc, rng, workdir: Path, ninputs=5, openmp=False, sanitize=True, keep=False, specs=None, size_cap=6, only_exact=False):
+def check_c(proc, rng, workdir: Path, ninputs=5, openmp=False, sanitize=True, keep=False, specs=None, size_cap=6, only_exact=False, run_env=None):
     """status:
        'exo_reject'     exo refused to compile (documented rejection)        -> not a case
        'exo_crash'      exo's compiler raised something undocumented           (C04d/C15)
@@ -102,7 +102,7 @@ def check_c(proc, rng, workdir: Path, ninputs=5, openmp=False, sanitize=True, ke
         r.detail = repr(e)[:300]
         return r
     try:
-        out = cbuild.build_and_run(c_text, h_text, drv, workdir, sanitize=sanitize, openmp=openmp or ("#pragma omp" in c_text))
+        out = cbuild.build_and_run(c_text, h_text, drv, workdir, sanitize=sanitize, openmp=openmp or ("#pragma omp" in c_text), run_env=run_env)
         if out["status"] == "compile_error":
             r.status = "gcc_reject"
             r.detail = out["stderr"][-1500:]
